@@ -17,6 +17,42 @@ def _arg_name(a):
     return None
 
 
+def _resolved_calls(fi: FuncInfo, min_args: int):
+    """(call, target FuncInfo, positional parameter names) for calls resolved inside the module (plain name, self./cls. method, Class.method)"""
+    mi = fi.module
+    for c in walk_local(fi.node, into_nested=True):
+        if not isinstance(c, ast.Call) or len(c.args) < min_args or any(isinstance(a, ast.Starred) for a in c.args):
+            continue
+        f = c.func
+        target = None
+        if isinstance(f, ast.Name):
+            target = mi.funcs.get(f.id) or (mi.funcs.get(f"{f.id}.__init__") if f.id in mi.classes else None)
+        elif isinstance(f, ast.Attribute) and isinstance(f.value, ast.Name):
+            if f.value.id in ("self", "cls") and fi.cls is not None:
+                target = mi.funcs.get(f"{fi.cls.name}.{f.attr}")
+            elif f.value.id in mi.classes:
+                target = mi.funcs.get(f"{f.value.id}.{f.attr}")
+        if target is None:
+            continue
+        params = list(target.params)
+        if params and params[0] in ("self", "cls") and "staticmethod" not in [norm(d) for d in target.node.decorator_list]:
+            params = params[1:]
+        yield c, target, params
+
+
+def misbound_positional(fi: FuncInfo) -> List[Tuple[ast.Call, str]]:
+    """a positional argument that is a plain name equal to one of the callee's parameter names, but sits at ANOTHER parameter's position
+    (typically after a parameter was inserted into the middle of the callee's signature while a caller kept passing by position).
+    One-letter names are exempt (end points are swapped on purpose).  Zero sites on the pinned tree, package-wide."""
+    out = []
+    for c, target, params in _resolved_calls(fi, 1):
+        names = [_arg_name(a) for a in c.args]
+        for i, nm in enumerate(names):
+            if nm and len(nm) > 1 and i < len(params) and nm != params[i] and nm in params:
+                out.append((c, f"argument {i} `{norm(c.args[i])}` is bound to parameter `{params[i]}` of {target.qual}, which has a parameter `{nm}` at position {params.index(nm)}"))
+    return out
+
+
 def swapped_positional(fi: FuncInfo) -> List[Tuple[ast.Call, str]]:
     mi = fi.module
     out = []
